@@ -159,6 +159,7 @@ package upstream
 //@ iface (github.com/bokysan/socketace/v2/internal/util/cert.ConfigGetter).CertManager (c cert.ConfigGetter) (result cert.TlsConfig)
 //@   pure
 //@ ghost G_snap_closed() bool
+//@ ghost G_snap_locked() bool
 // Data invariant of the upstream list (exported to the listener package's contracts): every entry was built by
 // the parser, entries are distinct objects, and a current connection always has its session.
 //@ pred UpstreamsInv(ul *Upstreams) := ul != nil && upstreamsWF(ul.Data) && distinctUps(ul.Data) && (ul.connection != nil ==> ul.session != nil)
@@ -166,6 +167,11 @@ package upstream
 //@   property C16
 //@   requires config != nil && UpstreamsInv(ul)                                                                 :upstream_list_invariant
 //@   callsite Closed#1 (c bool) assume G_snap_closed() == c "ghost snapshot: the liveness test of the current connection"
+// lock discipline (necessary for "one shared session" under concurrent callers, which this sequential
+// technique cannot decide): the liveness test and the reconnect happen after the mutex was taken
+//@   callsite Lock#1 () assume G_snap_locked() "ghost snapshot: the mutex has been taken"
+//@   callsite Closed#1 () require G_snap_locked()                                                               :liveness_test_under_the_lock
+//@   callsite open#1 () require G_snap_locked()                                                                 :reconnect_under_the_lock
 //@   callsite open#1 () require ul.connection == nil && ul.session == nil                                       :reconnects_from_a_clean_state
 //@   callsite open#1 () require old(ul.connection) == nil || G_snap_closed()                                    :a_live_connection_is_reused
 //@   callsite openStream#1 () require ul.session != nil                                                         :streams_only_over_a_session
